@@ -105,7 +105,7 @@ fn special(engine: &str, prop: u8) -> Vec<DynScen> {
         ("probe", 4) => vec![dynscen(probe::ProbeScen)],
         ("dict", 7) | ("dict", 10) | ("dict", 1) | ("dict", 2) => vec![dynscen(dict::DictScen::<flatcontainer::impls::codec::CodecRegion<flatcontainer::impls::codec::DictionaryCodec>> { prop, _m: std::marker::PhantomData })],
         ("dict", 4) => vec![dynscen(dict::DictScen::<flatcontainer::StringRegion<flatcontainer::impls::codec::CodecRegion<flatcontainer::impls::codec::DictionaryCodec>>> { prop, _m: std::marker::PhantomData })],
-        ("huff", 6) | ("huff", 10) | ("huff", 1) | ("huff", 2) | ("huff", 14) | ("huff", 20) | ("huff", 9) => vec![dynscen(huff::HuffScen { wide: false, prop }), dynscen(huff::HuffScen { wide: true, prop })],
+        ("huff", 6) | ("huff", 10) | ("huff", 1) | ("huff", 2) | ("huff", 14) | ("huff", 20) | ("huff", 9) | ("huff", 11) => vec![dynscen(huff::HuffScen { wide: false, prop }), dynscen(huff::HuffScen { wide: true, prop })],
         _ => Vec::new(),
     }
 }
